@@ -25,8 +25,8 @@ const (
 	ski2 = "ffff456789abcdef0123456789abcdef0123ffff"
 )
 
-var atomOf = map[rune]string{'x': "a", 'é': "e2", '€': "e3", '😀': "e4", '=': "eq", ';': "semi", ':': "colon", '%': "pct"}
-var runeOf = map[string]string{"a": "x", "e2": "é", "e3": "€", "e4": "😀", "eq": "=", "semi": ";", "colon": ":", "pct": "%"}
+var atomOf = map[rune]string{'x': "a", 'é': "e2", '€': "e3", '😀': "e4", '=': "eq", ';': "semi", ':': "colon", '%': "pct", ' ': "sp"}
+var runeOf = map[string]string{"a": "x", "e2": "é", "e3": "€", "e4": "😀", "eq": "=", "semi": ";", "colon": ":", "pct": "%", "sp": " "}
 
 type rowT struct {
 	Field string   `json:"field"`
